@@ -5,12 +5,12 @@
 From Coq Require Import ZArith List Bool.
 Import ListNotations.
 From Verif Require Import CallConv.FuncDetailModel CallConv.Abi CallConv.AbiLink CallConv.AbiProofs
-  CallConv.ShuffleModel CallConv.ShuffleProofs CallConv.ShuffleFindings.
+  CallConv.ShuffleModel CallConv.ShuffleProofs CallConv.ShuffleFindings CallConv.ShuffleBytesModel CallConv.ShuffleBytesProofs.
 Local Open Scope Z_scope.
 
 (* Part A.  For every target environment e and signature s (any CallConvId, any var-arg index, any return type, up to 32
    arguments of any TypeId) whose (target, convention) pair denotes one of SysV x86-64, Win64, cdecl / stdcall / fastcall (32-bit),
-   AAPCS64, Apple arm64: if the guard holds (the signature uses C types the ABI defines and avoids the recorded deviations, each
+   AAPCS64, Apple arm64 - and since round 2 x64 __vectorcall, __thiscall and GNU regparm(1..3): if the guard holds (the signature uses C types the ABI defines and avoids the recorded deviations, each
    clause of Abi.abi_guard names its DESIGN section-7 item) then FuncDetail::init succeeds and every argument location
    (register type + id or stack offset, by value / by reference), every return location, the size of the stack argument area and
    the constants of the convention (red zone, shadow space, natural alignment, callee-pops, preserved sets, register orders)
@@ -30,7 +30,8 @@ Print Assumptions C06_assign_matches_abi.
 Theorem C06_guard_satisfiable :
   (abi_of_env (mkEnv X64 0 0) 0 = Some SysV64 /\
    abi_guard SysV64 false 38 [38; 43; 75; 40; 34; 35; 36; 37; 41; 43; 43; 43; 43; 43; 43; 43; 43; 40; 43; 40; 79; 38] = true) /\
-  (abi_of_env (mkEnv X64 1 1) 0 = Some Win64 /\ abi_guard Win64 true 43 [38; 43; 40; 42; 75; 50; 34; 43; 85] = true) /\
+  (abi_of_env (mkEnv X64 1 1) 0 = Some Win64 /\ abi_guard Win64 true 43 [38; 43; 40; 42; 75; 50; 34; 43; 85] = true /\
+   abi_of_env (mkEnv X64 0 0) 3 = Some Vectorcall64 /\ abi_guard Vectorcall64 false 79 [38; 43; 38; 79; 38; 85; 38; 79; 43; 99] = true) /\
   (abi_of_env (mkEnv X86 0 0) 2 = Some Fastcall32 /\ abi_guard Fastcall32 false 40 [38; 34; 40; 43; 42; 75; 75; 75; 38] = true /\
    abi_guard Cdecl32 true 43 [38; 40; 43; 41; 36] = true) /\
   (abi_of_env (mkEnv A64 2 2) 0 = Some Apple64 /\
@@ -38,6 +39,12 @@ Theorem C06_guard_satisfiable :
    abi_guard Aapcs64 true 75 [34; 38; 38; 38; 38; 38; 38; 38; 38; 34; 40; 40; 42; 43; 75; 66; 75; 75; 75; 75; 75; 75; 75] = true).
 Proof. exact (conj guard_satisfiable_sysv (conj guard_satisfiable_win64 (conj guard_satisfiable_i386 guard_satisfiable_a64))). Qed.
 Print Assumptions C06_guard_satisfiable.
+
+Theorem C06_guard_satisfiable_regparm :
+  abi_of_env (mkEnv X86 0 0) 7 = Some (Regparm32 3) /\ abi_guard (Regparm32 3) false 40 [38; 40; 38; 75; 43] = true /\
+  abi_guard (Regparm32 2) false 38 [40; 38; 40] = true /\ abi_guard (Regparm32 1) false 0 [36; 40; 38] = true.
+Proof. exact guard_satisfiable_regparm. Qed.
+Print Assumptions C06_guard_satisfiable_regparm.
 
 (* constants of every (target, CallConvId) pair that denotes a covered ABI, unconditionally *)
 Theorem C06_callconv_constants : forall e ccid a, abi_of_env e ccid = Some a ->
@@ -47,8 +54,8 @@ Print Assumptions C06_callconv_constants.
 
 (* no register is ever assigned to arguments 16..31 of the positional conventions, whatever the convention record contains
    (the repaired look-up of DESIGN 7.4 / fixes/C06-win64-oob.patch; the pinned code returned GP ids 0..3 there) *)
-Theorem C06_win64_no_reg_beyond_16 : forall c ts i off, 16 <= i ->
-  Forall (fun v => fv_kind v <> 1) (concat (fst (win64_args c i off ts))).
+Theorem C06_win64_no_reg_beyond_16 : forall c ts i, 16 <= i ->
+  Forall (fun v => fv_kind v <> 1) (concat (win64_args c i ts)).
 Proof. exact win64_no_reg_beyond_16. Qed.
 Print Assumptions C06_win64_no_reg_beyond_16.
 
@@ -66,6 +73,23 @@ Theorem C06_shuffle_frame : forall mvs allowed ms, validate mvs allowed ms = tru
   forall st0 l, ~ In l allowed -> (forall mv, In mv mvs -> m_dst mv <> l) -> exec ms st0 l = st0 l.
 Proof. exact validate_frame. Qed.
 Print Assumptions C06_shuffle_frame.
+
+(* The same at BYTE level: registers plus a byte-addressed little-endian memory per stack area (incoming arguments / SP-based
+   destinations).  `validate_bytes` = `validate` + the cells named by the moves themselves take part in the range check + no access
+   wider than 64 bytes.  If it accepts, every destination - read back as bytes - holds its argument's value (read as bytes from
+   the initial memory), extended as required; and no byte outside the stored ranges changes.  This replaces the informal argument
+   "cells behave like memory when ranges with different start addresses are disjoint". *)
+Theorem C06_shuffle_sound_bytes : forall mvs allowed ms, validate_bytes mvs allowed ms = true ->
+  forall b0 : bstate, forall mv, In mv mvs ->
+  dst_ok mv (bread b0 (m_src mv) (m_sbits mv)) (bread (bexec ms b0) (m_dst mv) (m_dbits mv)).
+Proof. exact validate_bytes_sound. Qed.
+Print Assumptions C06_shuffle_sound_bytes.
+
+Theorem C06_shuffle_frame_bytes : forall mvs allowed ms, validate_bytes mvs allowed ms = true ->
+  forall b0 a x, (forall o bits, In (a, o, bits) (store_accesses ms) -> ~ (o <= x < o + bits / 8)) ->
+  b_mem (bexec ms b0) a x = b_mem b0 a x.
+Proof. exact validate_bytes_frame_mem. Qed.
+Print Assumptions C06_shuffle_frame_bytes.
 
 (* the validator accepts real shuffles (2-cycle by xchg, 3-cycle through a scratch register, load with sign extension) *)
 Theorem C06_validator_accepts :
@@ -96,10 +120,6 @@ Print Assumptions C06_a64_stack_vector_unaligned_refuted.
 Theorem C06_apple_stack_subword_refuted : deviates (mkEnv A64 2 2) (mkSig 0 255 0 [40;40;40;40;40;40;40;40;34;34]) Apple64.
 Proof. exact apple_stack_subword_refuted. Qed.
 Print Assumptions C06_apple_stack_subword_refuted.
-Theorem C06_win64_indirect_bump_refuted :
-  deviates (mkEnv X64 1 1) (mkSig 0 255 0 [75]) Win64 /\ deviates (mkEnv X64 1 1) (mkSig 0 255 0 [75;43;34;43;36]) Win64.
-Proof. exact win64_indirect_bump_refuted. Qed.
-Print Assumptions C06_win64_indirect_bump_refuted.
 Theorem C06_win64_mask_refuted : deviates (mkEnv X64 1 1) (mkSig 0 255 0 [46]) Win64.
 Proof. exact win64_mask_refuted. Qed.
 Print Assumptions C06_win64_mask_refuted.
@@ -107,6 +127,11 @@ Theorem C06_fastcall_int64_split_refuted :
   deviates (mkEnv X86 1 1) (mkSig 2 255 0 [40]) Fastcall32 /\ deviates (mkEnv X86 1 1) (mkSig 2 255 0 [34; 40]) Fastcall32.
 Proof. exact fastcall_int64_split_refuted. Qed.
 Print Assumptions C06_fastcall_int64_split_refuted.
+(* GNU regparm: a 64-bit integer is never split between the last register and the stack (GCC, clang -mregparm) *)
+Theorem C06_regparm_int64_split_refuted :
+  deviates (mkEnv X86 0 0) (mkSig 7 255 0 [38; 38; 40]) (Regparm32 3) /\ deviates (mkEnv X86 0 0) (mkSig 5 255 0 [40]) (Regparm32 1).
+Proof. exact regparm_int64_split_refuted. Qed.
+Print Assumptions C06_regparm_int64_split_refuted.
 Theorem C06_i386_long_double_slot_refuted : deviates (mkEnv X86 0 0) (mkSig 0 255 0 [44; 38]) Cdecl32.
 Proof. exact i386_long_double_slot_refuted. Qed.
 Print Assumptions C06_i386_long_double_slot_refuted.
@@ -116,12 +141,6 @@ Print Assumptions C06_i386_stack_vector_unaligned_refuted.
 Theorem C06_sysv_mask_return_refuted : deviates (mkEnv X64 0 0) (mkSig 0 255 46 []) SysV64.
 Proof. exact sysv_mask_return_refuted. Qed.
 Print Assumptions C06_sysv_mask_return_refuted.
-(* x64 __vectorcall: positional home slots 8*i and a 32-byte home area (Microsoft; clang); the code: sequential after 48 bytes *)
-Theorem C06_vectorcall_stack_refuted :
-  exists d, func_detail_init (mkEnv X64 1 1) (mkSig 3 255 0 [38; 38; 38; 38; 38]) = R_ok d /\
-    nth 4 (map (map loc_of) (fd_args d)) [] <> [L_stack (8 * 4)] /\ fd_stack d <> win_stack_size 5 /\ cc_spill (fd_cc d) <> 32.
-Proof. exact vectorcall_stack_refuted. Qed.
-Print Assumptions C06_vectorcall_stack_refuted.
 (* DESIGN 7.19: a lone `xchg esi, edi` for (int8 -> esi : int32, int32 -> edi) leaves a wrong value under the machine semantics *)
 Theorem C06_swap_drops_extension_refuted :
   exists st0, ~ dst_ok mv_7_19 (st0 (m_src mv_7_19)) (exec [IXchg (Reg 0 6) (Reg 0 7) 32 64] st0 (m_dst mv_7_19)).
